@@ -1,4 +1,6 @@
-(* C06 (replay-cache half) — the server's record of recent traffic never reports never-seen
+(* C06. First the replay-cache half; at the end of the file the end-to-end half (C06_replay_rejected_tcp /
+   C06_replay_rejected_udp: the server's front door of model/ServerFront.v running on this very cache).
+   C06 (replay-cache half) — the server's record of recent traffic never reports never-seen
    traffic as a replay and never misses an entry inside its (interval, capacity) bounds.
    Statements only; each is closed by [exact] of a lemma of proofs/ReplayProofs.v.
    The model (model/Replay.v, [is_duplicate]) is pkg/replay/replay.go IsDuplicate with
@@ -6,6 +8,7 @@
    as found at the pinned commit. *)
 From Coq Require Import ZArith NArith List.
 From M Require Import gen.Consts model.Replay model.KeyTime proofs.KeyTimeProofs proofs.ReplayProofs.
+From M Require Import model.ServerFront proofs.ServerFrontProofs proofs.ReplayFrontInst.
 Import ListNotations.
 Open Scope Z_scope.
 
@@ -114,3 +117,69 @@ Theorem C06_retention_covers_timestamp :
   t1 < t0 + streamReplayInterval_ns /\ t1 < t0 + packetReplayInterval_ns.
 Proof. exact retention_covers_timestamp. Qed.
 Print Assumptions C06_retention_covers_timestamp.
+
+(* ------------------------------------------------------------------------------------------------
+   End-to-end half: the server's first-segment logic (model/ServerFront.v: tcp_front / udp_front) running on the
+   concrete cache of model/Replay.v with the process-wide parameters.  Quantified over every cipher
+   (key, open_hdr, open_body_*, le_ok, le_decode), every discovery order (cands) and signature function (sig_of);
+   the only premise besides the scenario is that discovery tries registered keys only.  The cipher functions in
+   force at the time of the replay (key', oh, ob, lo, ld, cd, and on UDP the whole session table ss1) are
+   arbitrary and unrelated to those of the original: the copy is refused WHETHER OR NOT it decrypts. *)
+
+(* TCP.  A first segment that created a session at t0 (cache history h1 before it); then any cache traffic h2
+   (other connections, later segments of this one) with non-decreasing times, fewer than capacity other distinct
+   signatures; at t1 < t0 + retention any byte string that starts with the same 72 bytes - the whole recorded
+   stream, any prefix containing them, the first segment alone - arrives on a new connection from any address:
+   no Write, no session, nothing for Accept; REPLAY_ERROR (read-only drain, close). *)
+Theorem C06_replay_rejected_tcp :
+  forall (key : Type) (open_hdr : key -> bytes -> option bytes) (open_body_tcp : key -> bytes -> bytes -> option bytes)
+         (le_ok : bytes -> bool) (le_decode : bytes -> bytes -> option bytes) (cands : bytes -> addr -> list key)
+         (sig_of : bytes -> N) (keys : list key),
+  (forall (h : bytes) (src : addr) (k : key), In k (cands h src) -> In k keys) ->
+  forall (T0 : Z) (c0 : cache)
+         (key' : Type) (oh : key' -> bytes -> option bytes) (ob : key' -> bytes -> bytes -> option bytes)
+         (lo : bytes -> bool) (ld : bytes -> bytes -> option bytes) (cd : bytes -> addr -> list key')
+         (h1 : list op) (src0 : addr) (input0 : bytes) (t0 : Z)
+         (h2 : list op) (src1 : addr) (input1 : bytes) (t1 : Z),
+  new_cache streamReplayCapacity streamReplayInterval_ns T0 = Some c0 ->
+  t_created (fst (tcp_front key open_hdr open_body_tcp le_ok le_decode cands sig_of cache is_duplicate
+                            (final c0 h1) src0 input0 t0)) <> [] ->
+  firstn hdr_len input1 = firstn hdr_len input0 ->
+  let x := sig_of (firstn sig_len (firstn hdr_len input0)) in
+  mono_from t0 (h2 ++ [(x, [], t1)]) ->
+  t1 < t0 + streamReplayInterval_ns ->
+  Z.of_nat (length (nodup N.eq_dec (remove N.eq_dec x (map op_sig h2)))) < streamReplayCapacity ->
+  let r := fst (tcp_front key' oh ob lo ld cd sig_of cache is_duplicate
+                          (final c0 (h1 ++ (x, [], t0) :: h2)) src1 input1 t1) in
+  t_out r = [] /\ t_created r = [] /\ t_app r = [] /\ t_verdict r = V_replay.
+Proof. exact c06_replay_rejected_tcp_real. Qed.
+Print Assumptions C06_replay_rejected_tcp.
+
+(* UDP.  A datagram from srcA that was accepted at t0 (it created a session, reached one, or drew a close request);
+   the same bytes from a DIFFERENT source address srcB at t1 < t0 + retention, inside the capacity bound, against
+   any session table: no datagram in reply, no session, nothing delivered, session table unchanged. *)
+Theorem C06_replay_rejected_udp :
+  forall (key : Type) (user_of : key -> N) (open_hdr : key -> bytes -> option bytes)
+         (open_body_udp : key -> bytes -> bytes -> option bytes) (le_ok : bytes -> bool)
+         (le_decode : bytes -> bytes -> option bytes) (cands : bytes -> addr -> list key) (sig_of : bytes -> N)
+         (T0 : Z) (c0 : cache)
+         (key' : Type) (uo : key' -> N) (oh : key' -> bytes -> option bytes) (ob : key' -> bytes -> bytes -> option bytes)
+         (lo : bytes -> bool) (ld : bytes -> bytes -> option bytes) (cd : bytes -> addr -> list key')
+         (h1 : list op) (ss0 : list (usession key)) (d : bytes) (srcA : addr) (t0 : Z)
+         (h2 : list op) (ss1 : list (usession key')) (srcB : addr) (t1 : Z),
+  new_cache packetReplayCapacity packetReplayInterval_ns T0 = Some c0 ->
+  (let r0 := fst (udp_front key user_of open_hdr open_body_udp le_ok le_decode cands sig_of cache is_duplicate
+                            (mkU key cache (final c0 h1) ss0) d srcA t0) in
+   u_created r0 <> [] \/ u_delivered r0 <> [] \/ u_out r0 <> []) ->
+  srcB <> srcA ->
+  let x := sig_of (firstn sig_len (firstn hdr_len d)) in
+  mono_from t0 (h2 ++ [(x, srcB, t1)]) ->
+  t1 < t0 + packetReplayInterval_ns ->
+  Z.of_nat (length (nodup N.eq_dec (remove N.eq_dec x (map op_sig h2)))) < packetReplayCapacity ->
+  let st1 := mkU key' cache (final c0 (h1 ++ (x, srcA, t0) :: h2)) ss1 in
+  let r := udp_front key' uo oh ob lo ld cd sig_of cache is_duplicate st1 d srcB t1 in
+  u_out (fst r) = [] /\ u_created (fst r) = [] /\ u_delivered (fst r) = [] /\
+  u_sessions (snd r) = ss1 /\
+  (u_verdict (fst r) = V_replay_drop \/ u_verdict (fst r) = V_undecryptable).
+Proof. exact c06_replay_rejected_udp_real. Qed.
+Print Assumptions C06_replay_rejected_udp.
